@@ -246,7 +246,15 @@ def evaluate(case) -> Result:
         if rt is not None:
             res.classes.append("probe:retransmission-of-unanswered")
         got = probe(w, case, host, rt)
-        want = fresh_probe(case, host)
+        # no processing capacity is consumed for good: six seconds later (the workers poll their stop flag every
+        # five) the connection worker threads alive are those of the sockets that are still open
+        w.advance(6)
+        open_conns = [c for c in w.conns if not c.node_closed]
+        workers = [t.name for t in w.k.live_threads() if "work_read_queue" in t.name or "work_write_queue" in t.name]
+        if len(workers) > 2 * len(open_conns):
+            res.v("C14/worker-threads-left-behind", f"{len(workers)} connection worker threads alive for {len(open_conns)} open "
+                  f"connection(s): {workers[:6]}")
+        want = fresh_probe(case, host)          # (a world of its own: nothing of this one may run afterwards)
         for sig, d in W.monitor_threads(w):
             res.v(f"C14/thread-died/{sig}", d)
         if got != want:
